@@ -104,6 +104,10 @@ def fd_cases(ctx):
         ('runtime_error', {'q': 'select int(a1)', 'input': good}),
         ('runtime_error_join', {'q': 'select int(a1), b2 join JOINFILE on a1 == b1', 'input': good, 'join': join}),
         ('io_error_bytes', {'q': 'select a1', 'input': list(b'a,b\n\xff,2\n')}),
+        ('io_error_join_bytes', {'q': 'select a1, b2 join JOINFILE on a1 == b1', 'input': good, 'join': list(b'\xff\xfe,x\n3,y\n')}),
+        ('io_error_join_late_bytes', {'q': 'select a1, b2 join JOINFILE on a1 == b1', 'input': good, 'join': list(b'1,x\n3,\xff\n')}),
+        ('io_error_join_rfc_quoting', {'q': 'select a1, b2 join JOINFILE on a1 == b1', 'input': good, 'join': list(b'1,x"y\n3,y\n'), 'policy': 'quoted_rfc'}),
+        ('io_error_input_rfc_quoting', {'q': 'select a1', 'input': list(b'a,b"c\n1,2\n'), 'policy': 'quoted_rfc'}),
         ('io_error_join_missing', {'q': 'select a1 join /nonexistent/file.csv on a1 == b1', 'input': good}),
         ('io_error_header_width', {'q': 'select distinct count a1', 'input': good, 'with_headers': True}),
         ('syntax_error', {'q': 'select a1 +', 'input': good}),
@@ -225,8 +229,8 @@ def run(ctx):
     ctx.sample({'kind': 'fd', 'scenarios': [[c['tags'][1], g] for c, g in zip(fc, fgot)][:4]})
     ctx.rule = ('(a) recording writer refusing its k-th write for every k x 9 query shapes x random tables: trace/pulls/error = model, protocol checked on the implementation trace; '
                 '(b) CSVWriter over a stream raising BrokenPipeError at its k-th write for every k: accepted text = model prefix, no operation after the refusal, no error, sys.stdout left open; '
-                '(c) 7 invalid UTF-8 sequences at every byte position of 5 samples x chunk sizes {1,2,3,1024}: IO-handling error and no records; (d) /proc/self/fd before/after query_csv on 10 '
-                'success/parsing/runtime/IO/syntax scenarios; non-trivial = distinct case with a refused write / broken pipe / invalid byte / any fd scenario')
+                '(c) 7 invalid UTF-8 sequences at every byte position of 5 samples x chunk sizes {1,2,3,1024}: IO-handling error and no records; (d) /proc/self/fd before/after query_csv on 14 '
+                'success/parsing/runtime/IO/syntax scenarios (every file object opened by the front-end is tracked and must be closed); non-trivial = distinct case with a refused write / broken pipe / invalid byte / any fd scenario')
 
 
 def replay(ctx, case):
